@@ -332,6 +332,15 @@ var trafficSets = []*ConvSet{
 	{Name: "udp4", Interleaves: single, Convs: []ConvSpec{
 		udp("u", "10.0.1.1", 5353, "10.0.1.2", 53, cm("qry"), sm("answ"), cm("q2")),
 	}},
+	// a flow that is opened by a datagram without payload (hole punching, an "are you there" probe), the first payload
+	// coming from the other side; and a flow that never carries payload at all
+	{Name: "udp-empty-first", Interleaves: single, Convs: []ConvSpec{
+		udp("e", "10.0.8.1", 40123, "10.0.8.2", 9999, cm(""), sm("banner"), cm("req"), sm("")),
+	}},
+	{Name: "udp-empty-only", Interleaves: single, Convs: []ConvSpec{
+		udp("e", "10.0.8.1", 40124, "10.0.8.2", 9999, cm(""), sm(""), cm("")),
+		udp("f", "10.0.8.1", 40125, "10.0.8.2", 9999, cm("x"), sm("y")),
+	}},
 	{Name: "udp6", Interleaves: single, Convs: []ConvSpec{
 		udp("u", "fd00::11", 123, "fd00::12", 123, cm("ab"), cm("cde"), sm("f")),
 	}},
